@@ -689,6 +689,9 @@ func (x *xgen) leaf() int {
 		}
 		return x.a.add(xnode{K: "var", Text: sp, Key: strings.ToLower(k)})
 	case v < 9:
+		if x.r.Intn(4) == 0 { // the same spelling may occur as a number and as a string constant in one expression
+			return x.a.add(xnode{K: "const", Op: []string{"int", "quoted"}[x.r.Intn(2)], Text: fmt.Sprint(1 + x.r.Intn(3))})
+		}
 		return x.a.add(xnode{K: "const", Op: "int", Text: fmt.Sprint(x.nc)})
 	case v < 10:
 		return x.a.add(xnode{K: "const", Op: "float", Text: fmt.Sprintf("%d.5", x.nc)})
